@@ -52,7 +52,7 @@ def cases(tier, seed):
         else:
             mem = corecfg.synth_mem(r, fams[k % len(fams)])
         cs = corecfg.rand_cs(r, refresh=True)
-        cs["refresh_postponing"] = r.choice([1, 1, 2, 4, 8])
+        cs["refresh_postponing"] = r.choice([1, 1, 2, 4, 8, 3, 5, 6, 7])
         nports = r.choice([1, 2, 3, 4])
         cls, roles = SERVICE_CLASSES[k % len(SERVICE_CLASSES)]
         zq = False
